@@ -1882,6 +1882,12 @@ class _Math:
                 c._add(z3.Implies(a == -t, fa == -app))
         return self._app('erf', x, lemma)
 
+    def erfc(self, x):
+        """complementary error function by its definition 1 - erf(x) (exact in real arithmetic)"""
+        if not is_sym(x):
+            return math.erfc(x)
+        return 1 - self.erf(x)
+
     def exp(self, x):
         if not is_sym(x):
             return math.exp(x)
